@@ -139,52 +139,129 @@ def r_wrapper_order(P, chk):
                     if not ok:
                         chk.violation(rid, "wrapper:snippet:%s" % g.name, g.where(x), "%s forces a complete document without checking "
                                       "that a snippet was not requested (conditions: %s)" % (g.name, conds))
-    chk.floor(rid, n_set, 2, "stores that set EXT_COMPLETE")
-    # control-key set
+    chk.floor(rid, n_set, 1, "stores that set EXT_COMPLETE")
+    # control-key set, by path conditions: for every key literal K that process_metadata_stack (or a helper it hands the key
+    # to) compares the key with, decide each comparison for "key == K" and ask whether a store that sets EXT_COMPLETE is
+    # still reachable.  Helper results (`int r = helper(key, ..)`) are followed as sets of constant return values.
     pm = P.func("process_metadata_stack", "writer.c")
+
+    def key_like(f, e, kparams):
+        sk = strip(e)
+        if sk is not None and sk["k"] == "DeclRefExpr" and sk["n"] in kparams:
+            return True
+        return resolve_key(f, e).endswith("->key")
+
+    def strcmp_lit(f, t, kparams):
+        """(literal) if t is strcmp(<key>, "literal") in either argument order, else None"""
+        t = strip(t)
+        if t is None or t["k"] != "CallExpr" or t.get("callee") != "strcmp" or len(t["c"]) < 3:
+            return None
+        a, b = t["c"][1], t["c"][2]
+        for x, y in ((a, b), (b, a)):
+            ly = strip(y)
+            if ly is not None and ly["k"] == "StringLiteral" and key_like(f, x, kparams):
+                return ly["s"]
+        return None
+
+    def helpers_of(f):
+        out = []
+        for c in f.calls():
+            h = P.resolve(f, c.get("callee") or "")
+            if h is None or not P.first_party(h) or h is f:
+                continue
+            idx = [i2 for i2, a in enumerate(c["c"][1:]) if key_like(f, a, ())]
+            if idx and idx[0] < len(h.params):
+                out.append((c, h, h.params[idx[0]][0]))
+        return out
+    lits = set()
+    for x in pm.walk():
+        l = strcmp_lit(pm, x, ())
+        if l is not None:
+            lits.add(l)
+    hs = helpers_of(pm)
+    for c, h, pn in hs:
+        for x in h.walk():
+            l = strcmp_lit(h, x, (pn,))
+            if l is not None:
+                lits.add(l)
+    chk.floor(rid, len(lits), 9, "metadata keys compared in process_metadata_stack")
+
+    def decider(f, K, kparams, valsets):
+        def d(t):
+            t = strip(t)
+            if t is None:
+                return None
+            l = strcmp_lit(f, t, kparams)
+            if l is not None:
+                return l != K            # strcmp() is non-zero (true) when the strings differ
+            if t["k"] == "BinaryOperator" and t["op"] in ("==", "!="):
+                for x, y in ((t["c"][0], t["c"][1]), (t["c"][1], t["c"][0])):
+                    cv = const_value(y)
+                    if cv is None:
+                        continue
+                    l2 = strcmp_lit(f, x, kparams)
+                    if l2 is not None and cv == 0:
+                        eq = (l2 == K)
+                        return eq if t["op"] == "==" else not eq
+                    sx = strip(x)
+                    if sx is not None and sx["k"] == "DeclRefExpr" and sx["n"] in valsets and valsets[sx["n"]] is not None:
+                        res = {(vv == cv) if t["op"] == "==" else (vv != cv) for vv in valsets[sx["n"]]}
+                        if len(res) == 1:
+                            return res.pop()
+            return None
+        return d
+
+    def ret_vals(h, pn, K):
+        blocks = edpe_blocks(h, "?none", 0, extra_decide=decider(h, K, (pn,), {}))
+        hpos = h.cfg.positions()
+        vals = set()
+        for r in h.walk():
+            if r["k"] != "ReturnStmt" or not r.get("c") or r["c"][0] is None:
+                continue
+            z = r if r.get("i") in hpos else next((y for y in walk(r) if y.get("i") in hpos), None)
+            if z is None or hpos[z["i"]][0] not in blocks:
+                continue
+            e = strip(r["c"][0])
+            cv = const_value(e)
+            if cv is not None:
+                vals.add(cv)
+            elif e is not None and e["k"] == "ConditionalOperator" and const_value(e["c"][1]) is not None and const_value(e["c"][2]) is not None:
+                vals |= {const_value(e["c"][1]), const_value(e["c"][2])}
+            else:
+                return None
+        return vals
+    stores = [x for x in pm.walk() if x["k"] == "CompoundAssignOperator" and x["op"] == "|=" and (const_value(x["c"][1]) or 0) & ext["EXT_COMPLETE"]]
+    ppos = pm.cfg.positions()
     keys = {}
-    for n in pm.walk():
-        if n["k"] != "IfStmt":
-            continue
-        # `strcmp(m->key, "a") == 0`, or a disjunction of such tests sharing one branch
-        def disjuncts(e):
-            e = strip(e)
-            if e is not None and e["k"] == "BinaryOperator" and e["op"] == "||":
-                return disjuncts(e["c"][0]) + disjuncts(e["c"][1])
-            return [e]
-        lits = []
-        for cond in disjuncts(n["c"][0]):
-            if cond is None or cond["k"] != "BinaryOperator" or cond["op"] != "==" or const_value(cond["c"][1]) != 0:
-                lits = None
-                break
-            call = strip(cond["c"][0])
-            if call is None or call["k"] != "CallExpr" or call.get("callee") != "strcmp" or not resolve_key(pm, call["c"][1]).endswith("->key"):
-                lits = None
-                break
-            lit = strip(call["c"][2])
-            if lit is None or lit["k"] != "StringLiteral":
-                lits = None
-                break
-            lits.append(lit["s"])
-        if not lits:
-            continue
-        then = n["c"][1]
-        forces = any(x["k"] == "CompoundAssignOperator" and x["op"] == "|=" and (const_value(x["c"][1]) or 0) & ext["EXT_COMPLETE"]
-                     for x in walk(then))
-        for l in lits:
-            keys[l] = forces
-    chk.floor(rid, len(keys), 9, "metadata keys compared in process_metadata_stack")
+    for K in sorted(lits) + ["\x00some-other-key"]:
+        valsets = {}
+        for c, h, pn in hs:
+            par = pm.parent(c)
+            while par is not None and par["k"] in ("ImplicitCastExpr", "ParenExpr", "CStyleCastExpr"):
+                par = pm.parent(par)
+            tgt = None
+            if par is not None and par["k"] == "BinaryOperator" and par["op"] == "=":
+                tgt = key(par["c"][0])
+            elif par is not None and par["k"] == "VarDecl":
+                tgt = par["n"]
+            if tgt:
+                rv = ret_vals(h, pn, K)
+                valsets[tgt] = rv if tgt not in valsets else (None if (rv is None or valsets[tgt] is None) else valsets[tgt] | rv)
+        blocks = edpe_blocks(pm, "?none", 0, extra_decide=decider(pm, K, (), valsets))
+        keys[K] = any(x["i"] in ppos and ppos[x["i"]][0] in blocks for x in stores)
+    other_forces = keys.pop("\x00some-other-key")
     quiet = {k for k, forces in keys.items() if not forces}
-    ok = quiet == CONTROL_KEYS
-    chk.obligation(rid, "keys that do not force a complete document = rendering-control keys %s" % sorted(quiet), ok)
+    ok = quiet == CONTROL_KEYS and other_forces
+    chk.obligation(rid, "keys that do not force a complete document = rendering-control keys %s; any other key forces it" % sorted(quiet), ok)
     if not ok:
         chk.violation(rid, "wrapper:control-keys", pm.where(), "metadata keys that do not force a complete document are %s; the "
-                      "documented rendering-control set is %s (extra: %s, missing: %s)" % (
-                          sorted(quiet), sorted(CONTROL_KEYS), sorted(quiet - CONTROL_KEYS), sorted(CONTROL_KEYS - quiet)))
+                      "documented rendering-control set is %s (extra: %s, missing: %s)%s" % (
+                          sorted(quiet), sorted(CONTROL_KEYS), sorted(quiet - CONTROL_KEYS), sorted(CONTROL_KEYS - quiet),
+                          "" if other_forces else "; an arbitrary other key does not force a complete document"))
     # the final else (any other key) forces complete
     elses = [x for x in pm.walk() if x["k"] == "CompoundAssignOperator" and x["op"] == "|="
              and (const_value(x["c"][1]) or 0) & ext["EXT_COMPLETE"]]
-    chk.obligation(rid, "every other key forces a complete document (%d forcing branches)" % len(elses), len(elses) >= 2)
+    chk.obligation(rid, "every other key forces a complete document (%d forcing branches)" % len(elses), len(elses) >= 1)
     # who may read metadata in the body exporters
     roots = []
     for nme in ("mmd_export_token_tree_html", "mmd_export_token_tree_latex", "mmd_export_token_tree_beamer", "mmd_export_token_tree_memoir"):
